@@ -109,7 +109,8 @@ func checkC11(r *mon.Run) {
 	for i := 0; i < nCfg; i++ {
 		c11Config(r, rng, i)
 	}
-	r.Require(int64(nCfg*60), 80, "delivered_in_range_unchanged", "delivered_redirected", "svc_delivered", "svc_unregistered_not_delivered", "svc_instance_removed")
+	c11SendPhase(r)
+	r.Require(int64(nCfg*60), 80, "send_phase_delivered_judged", "send_phase_round_with_partial_writes", "delivered_in_range_unchanged", "delivered_redirected", "svc_delivered", "svc_unregistered_not_delivered", "svc_instance_removed")
 }
 
 func genRange(rng *rand.Rand) string {
